@@ -477,3 +477,118 @@ specialise(
     bounds="2 external_choices rows x 5 columns; the itemsets CSV must be the sheet image under either delivery",
     weight=60,
 )
+
+
+# ---- d': CSV text -> rows through the real csv_to_dict, with csv.reader / StringIO modelled (S13) -----------------
+class _LinesModel:
+    """io.StringIO(initial_value=s, newline='') as an iterable of physical lines: terminators \\n, \\r, \\r\\n are kept
+    untranslated at the end of each line (documented behaviour of newline='')."""
+
+    def __init__(self, initial_value="", newline=None):
+        self.s = initial_value
+
+    def __iter__(self):
+        s, i, n, start = self.s, 0, len(self.s), 0
+        while i < n:
+            ch = s[i]
+            if ch == "\n":
+                yield s[start : i + 1]
+                start = i + 1
+            elif ch == "\r":
+                if i + 1 < n and s[i + 1] == "\n":
+                    i += 1
+                yield s[start : i + 1]
+                start = i + 1
+            i += 1
+        if start < n:
+            yield s[start:]
+
+
+def _csv_reader_model(lines, *a, **kw):
+    """csv.reader with the default 'excel' dialect over an iterable of lines (written from the csv module documentation and
+    RFC 4180): comma delimiter, double-quote quoting with doubled quotes, a record ends at an unquoted line terminator,
+    characters of a quoted field (including line terminators present in the line strings) are kept verbatim."""
+    field, row, inq, started = [], [], False, False
+    for line in lines:
+        i, n = 0, len(line)
+        while i < n:
+            ch = line[i]
+            if inq:
+                if ch == '"':
+                    if i + 1 < n and line[i + 1] == '"':
+                        field.append('"')
+                        i += 1
+                    else:
+                        inq = False
+                else:
+                    field.append(ch)
+            elif ch == '"' and not field:
+                inq = True
+                started = True
+            elif ch == ",":
+                row.append("".join(field))
+                field = []
+                started = True
+            elif ch == "\n" or ch == "\r":
+                pass
+            else:
+                field.append(ch)
+                started = True
+            i += 1
+        if not inq:
+            if started or field:
+                row.append("".join(field))
+            yield row
+            field, row, started = [], [], False
+    if inq or row or field:
+        row.append("".join(field))
+        yield row
+
+
+class _Def:
+    def __init__(self, text):
+        self.data = self
+        self.t = text
+
+    def getvalue(self):
+        return self
+
+    def decode(self, enc):
+        return self.t
+
+
+def c12_csv_text(eol: int, a0: int, a1: int, b0: int) -> bool:
+    """
+    vpre: 9 <= a0 <= 13 and 35 <= a1 <= 126 and 35 <= b0 <= 126
+    vpost: _ == True
+    """
+    import types
+
+    E = ["\n", "\r\n", "\r"][eol]
+    cell = "x" + S(a0, a1)
+    text = "survey" + E + ",type,name,label,hint" + E + ',text,q1,"' + cell + '","' + S(b0) + '"' + E + ',note,q2,"a ""b"", c",' + E + "settings" + E + ",form_title" + E + ",T" + E
+    fake_csv = types.SimpleNamespace(reader=_csv_reader_model)
+    saved = (B.get_definition_data, B.csv, B.StringIO)
+    B.get_definition_data = lambda definition: _Def(definition)
+    if shims.SYMBOLIC:
+        B.csv, B.StringIO = fake_csv, _LinesModel
+    try:
+        got = B.csv_to_dict(text)
+    finally:
+        B.get_definition_data, B.csv, B.StringIO = saved
+    want = [{"type": "text", "name": "q1", "label": cell, "hint": S(b0)}, {"type": "note", "name": "q2", "label": 'a "b", c'}]
+    return got["survey"] == want and got["settings"] == [{"form_title": "T"}] and got["sheet_names"] == ["survey", "settings"]
+
+
+specialise(
+    "C12",
+    "d.csv-text",
+    c12_csv_text,
+    {"eol": [0, 1, 2]},
+    timeout=300,
+    kernel=("pyxform.xls2json_backends:csv_to_dict", "pyxform.xls2json_backends:is_csv", "pyxform.utils:count_characters_limit"),
+    shims=("S13",),
+    symbolic="a quoted label cell 'x'+2 symbolic characters whose first ranges over U+0009-U+000D (TAB, LF, VT, FF, CR: a line break inside a cell) and second over U+0023-U+007E; one symbolic hint character",
+    bounds="fixed CSV text of 2 sheets, record terminator LF / CRLF / CR per instance; csv.reader and StringIO(newline='') replaced by pure-Python models inside CrossHair (the witness is replayed on the C reader)",
+    weight=40,
+)
